@@ -208,6 +208,194 @@ theorem Edit.apply_nodupX [DecidableEq α] {e : Edit} {old ys new : List α} {re
 
 end ExtSlice
 
+/-! ### which members a slice addresses, and which stay -/
+
+section SliceArith
+variable {α : Type}
+
+theorem mem_dropIdx (idxs : List Nat) (l : List α) (k : Nat) (a : α) (h : a ∈ dropIdx idxs l k) :
+    ∃ j, l[j]? = some a ∧ k + j ∉ idxs := by
+  induction l generalizing k with
+  | nil => simp [dropIdx] at h
+  | cons b l ih =>
+    simp only [dropIdx] at h
+    split at h
+    · obtain ⟨j, hj, hn⟩ := ih (k + 1) h
+      exact ⟨j + 1, by simpa using hj, by rw [show k + (j + 1) = k + 1 + j by omega]; exact hn⟩
+    · rename_i hk
+      simp only [List.mem_cons] at h
+      rcases h with h | h
+      · subst h; exact ⟨0, by simp, by simpa using hk⟩
+      · obtain ⟨j, hj, hn⟩ := ih (k + 1) h
+        exact ⟨j + 1, by simpa using hj, by rw [show k + (j + 1) = k + 1 + j by omega]; exact hn⟩
+
+/-- in a list without repetition, a member at an addressed position is not among those that stay -/
+theorem pick_dropIdx_disjoint (l : List α) (idxs : List Nat) (hl : l.Nodup) (y : α) (hy : y ∈ pick l idxs) :
+    y ∉ dropIdx idxs l 0 := by
+  intro hin
+  simp only [pick, List.mem_filterMap] at hy
+  obtain ⟨i, hi, hiy⟩ := hy
+  obtain ⟨j, hj, hn⟩ := mem_dropIdx idxs l 0 y hin
+  obtain ⟨hil, _⟩ := List.getElem?_eq_some_iff.mp hiy
+  have : i = j := (List.getElem?_inj hil hl).mp (by rw [hiy, hj])
+  subst this
+  simp only [Nat.zero_add] at hn
+  exact hn hi
+
+/-- what `PySlice_AdjustIndices` guarantees -/
+theorem sliceAdjust_bounds {n : Nat} {sl : Slice} {a : Int × Int × Int} (h : sliceAdjust n sl = .ok a) :
+    a.2.2 ≠ 0 ∧ (0 < a.2.2 → 0 ≤ a.1 ∧ 0 ≤ a.2.1) ∧ (a.2.2 < 0 → -1 ≤ a.2.1 ∧ a.1 ≤ (n : Int) - 1) := by
+  simp only [sliceAdjust] at h
+  split at h
+  · cases h
+  · rename_i hstep
+    simp only [Except.ok.injEq] at h
+    subst h
+    refine ⟨hstep, ?_, ?_⟩
+    · intro hpos
+      simp only at hpos
+      have hneg : ¬ (sl.step.getD 1 < 0) := by omega
+      simp only [hneg, if_false]
+      constructor
+      · cases sl.start with
+        | none => simp
+        | some s => simp only [clampIdx]; split <;> omega
+      · cases sl.stop with
+        | none => simp
+        | some s => simp only [clampIdx]; split <;> omega
+    · intro hneg
+      simp only at hneg
+      simp only [hneg, if_true]
+      constructor
+      · cases sl.stop with
+        | none => simp
+        | some s => simp only [clampIdx]; split <;> omega
+      · cases sl.start with
+        | none => simp
+        | some s => simp only [clampIdx]; split <;> omega
+
+/-- the positions of a slice in Int: `start + k·step` for `k < sliceLen`, all non-negative -/
+theorem sliceIdx_nonneg {n : Nat} {sl : Slice} {a : Int × Int × Int} (h : sliceAdjust n sl = .ok a) (k : Nat)
+    (hk : k < sliceLen a.1 a.2.1 a.2.2) : 0 ≤ a.1 + (k : Int) * a.2.2 := by
+  obtain ⟨h0, hp, hn⟩ := sliceAdjust_bounds h
+  rcases Int.lt_or_gt_of_ne h0 with hneg | hpos
+  · obtain ⟨b1, _⟩ := hn hneg
+    simp only [sliceLen] at hk
+    have hng : ¬ (a.2.2 > 0) := by omega
+    simp only [hng, if_false] at hk
+    split at hk
+    · rename_i hlt
+      have hd : (0 : Int) < -a.2.2 := by omega
+      have hq : (k : Int) ≤ (a.1 - a.2.1 - 1) / (-a.2.2) := by
+        have : (0 : Int) ≤ (a.1 - a.2.1 - 1) / (-a.2.2) := Int.ediv_nonneg (by omega) (by omega)
+        omega
+      have hm := (Int.le_ediv_iff_mul_le hd).mp hq
+      have : (k : Int) * (-a.2.2) = -((k : Int) * a.2.2) := by rw [Int.mul_neg]
+      omega
+    · simp at hk
+  · obtain ⟨b1, _⟩ := hp hpos
+    have : (0 : Int) ≤ (k : Int) * a.2.2 := Int.mul_nonneg (by omega) (by omega)
+    omega
+
+/-- a slice addresses no position twice -/
+theorem sliceIdx_nodup {n : Nat} {sl : Slice} {a : Int × Int × Int} (h : sliceAdjust n sl = .ok a) :
+    (sliceIdx a).Nodup := by
+  simp only [sliceIdx, List.Nodup, List.pairwise_map]
+  have hr : List.Pairwise (fun a b => a ≠ b) (List.range (sliceLen a.1 a.2.1 a.2.2)) := List.nodup_range
+  apply hr.imp_of_mem
+  intro k1 k2 hk1 hk2 hne heq
+  simp only [List.mem_range] at hk1 hk2
+  have n1 := sliceIdx_nonneg h k1 hk1
+  have n2 := sliceIdx_nonneg h k2 hk2
+  have h0 := (sliceAdjust_bounds h).1
+  have he : a.1 + (k1 : Int) * a.2.2 = a.1 + (k2 : Int) * a.2.2 := by omega
+  have he2 : ((k1 : Int) - (k2 : Int)) * a.2.2 = 0 := by rw [Int.sub_mul]; omega
+  rcases Int.mul_eq_zero.mp he2 with h1 | h1
+  · exact hne (by omega)
+  · exact h0 h1
+
+/-- the members a slice assignment addresses are not among those that stay (`remainX`), whatever the step -/
+theorem pick_sliceIdx_not_remain (old : List α) (sl : Slice) (a : Int × Int × Int)
+    (h : sliceAdjust old.length sl = .ok a) (ho : old.Nodup) (y : α) (hy : y ∈ pick old (sliceIdx a)) :
+    y ∉ remainX (.setSlice sl) old := by
+  simp only [remainX, h]
+  split
+  · rename_i h1
+    intro hin
+    simp only [pick, List.mem_filterMap] at hy
+    obtain ⟨i, hi, hiy⟩ := hy
+    simp only [sliceIdx, List.mem_map, List.mem_range] at hi
+    obtain ⟨k, hk, rfl⟩ := hi
+    obtain ⟨hil, _⟩ := List.getElem?_eq_some_iff.mp hiy
+    obtain ⟨b1, b2⟩ := (sliceAdjust_bounds h).2.1 (by omega)
+    simp only [h1, sliceLen] at hk
+    have hk' : a.1 < a.2.1 ∧ (k : Int) < a.2.1 - a.1 := by
+      split at hk
+      · split at hk
+        · rename_i hlt; exact ⟨hlt, by omega⟩
+        · simp at hk
+      · omega
+    simp only [List.mem_append] at hin
+    rcases hin with hin | hin
+    · obtain ⟨j, hj⟩ := List.mem_iff_getElem?.mp hin
+      rw [List.getElem?_take] at hj
+      split at hj
+      · rename_i hjl
+        have : (a.1 + (k : Int) * a.2.2).toNat = j := (List.getElem?_inj hil ho).mp (by rw [hiy, hj])
+        rw [h1] at this
+        omega
+      · cases hj
+    · obtain ⟨j, hj⟩ := List.mem_iff_getElem?.mp hin
+      rw [List.getElem?_drop] at hj
+      have : (a.1 + (k : Int) * a.2.2).toNat = (max a.2.1 a.1).toNat + j := (List.getElem?_inj hil ho).mp (by rw [hiy, hj])
+      rw [h1] at this
+      omega
+  · exact pick_dropIdx_disjoint old _ ho y hy
+
+theorem trueIdx_ge (bs : List Bool) (k : Nat) : ∀ i ∈ trueIdx bs k, k ≤ i := by
+  induction bs generalizing k with
+  | nil => simp [trueIdx]
+  | cons b bs ih =>
+    intro i hi
+    simp only [trueIdx] at hi
+    split at hi
+    · simp only [List.mem_cons] at hi
+      rcases hi with hi | hi
+      · omega
+      · have := ih (k + 1) i hi; omega
+    · have := ih (k + 1) i hi; omega
+
+/-- a boolean mask selects no position twice -/
+theorem trueIdx_nodup (bs : List Bool) (k : Nat) : (trueIdx bs k).Nodup := by
+  induction bs generalizing k with
+  | nil => simp [trueIdx]
+  | cons b bs ih =>
+    simp only [trueIdx]
+    split
+    · simp only [List.nodup_cons]
+      exact ⟨fun hin => by have := trueIdx_ge bs (k + 1) k hin; omega, ih (k + 1)⟩
+    · exact ih (k + 1)
+
+end SliceArith
+
+/-! ### `extend` with the default flag: what is taken over uncopied is new to the target and listed once -/
+
+theorem keptOf_memoFlags (seen xs : List Nat) :
+    (World.keptOf xs (memoFlags seen xs)).Nodup ∧ ∀ y ∈ World.keptOf xs (memoFlags seen xs), y ∉ seen := by
+  induction xs generalizing seen with
+  | nil => simp [World.keptOf]
+  | cons a r ih =>
+    obtain ⟨i1, i2⟩ := ih (a :: seen)
+    by_cases ha : a ∈ seen
+    · simp only [memoFlags, ha, decide_true, World.keptOf]
+      exact ⟨i1, fun y hy hin => i2 y hy (List.mem_cons_of_mem _ hin)⟩
+    · simp only [memoFlags, ha, decide_false, World.keptOf, List.nodup_cons, List.mem_cons]
+      refine ⟨⟨fun hin => i2 a hin (by simp), i1⟩, ?_⟩
+      intro y hy hin
+      rcases hy with hy | hy
+      · subst hy; exact ha hin
+      · exact i2 y hy (List.mem_cons_of_mem _ hin)
+
 /-! ### what the planner emits -/
 
 section Shape
